@@ -241,6 +241,13 @@ def set_method(E, recv, c, name, args, kwargs, fr, node):
 
 def value_method(E, recv, name, args, kwargs, fr, node):
     line = getattr(node, "lineno", 0)
+    if isinstance(recv, SV) and isinstance(recv.ty, TOpt) and recv.ty.elem == TFile:
+        so = sort(recv.ty)
+        E.may_raise("AttributeError", so.is_none(recv.t), line, "method %s of None" % name)
+        recv = SV(so.val(recv.t), TFile)
+    if isinstance(recv, SV) and recv.ty == TFile:
+        from .files import file_method
+        return file_method(E, recv, name, args, kwargs, fr, node)
     if isinstance(recv, bool):
         recv = int(recv)
     if is_intlike(recv):
